@@ -7,6 +7,7 @@ with a model freshly rebuilt from its own content (public raw getters -> public 
 from __future__ import annotations
 
 import copy
+import types
 from collections import Counter
 
 from simkit.core import (
@@ -21,7 +22,31 @@ from simkit.core import (
     sig_matches,
     violation,
 )
-from simkit.fnlib import ARITY, FN, SCALAR_FNS, SURROGATE_FNS
+from simkit.fnlib import ARITY, SCALAR_FNS, SURROGATE_FNS
+from simkit.fnlib import FN as _FN_STATIC
+
+#: runs with ephemeral functions: every function handed to the model is a NEW function object
+#: (same code) that nothing but the model refers to, as when a user defines rate laws inside a
+#: loop or a notebook cell that is re-run: it dies when the model drops it, and a later
+#: function may be allocated at its address (anything remembered by id() goes stale)
+EPHEMERAL = [False]
+
+
+class _FnTable:
+    def __getitem__(self, name: str):  # noqa: ANN204
+        f = _FN_STATIC[name]
+        if not EPHEMERAL[0] or not isinstance(f, types.FunctionType):
+            return f
+        g = types.FunctionType(f.__code__, f.__globals__, f.__name__, f.__defaults__, f.__closure__)
+        g.__qualname__ = f.__qualname__
+        g.__module__ = f.__module__
+        return g
+
+    def __contains__(self, name: str) -> bool:
+        return name in _FN_STATIC
+
+
+FN = _FnTable()
 from simkit.rng import SimRng, derive
 
 KINDS = ["parameter", "variable", "derived", "reaction", "readout", "surrogate", "data"]
@@ -692,6 +717,7 @@ def make_config(rng: SimRng, tier: str) -> dict:
         "focus": focus,
         "clone_rate": r.choice([0.0, 0.0, 0.05, 0.1]),
         "box_rate": r.choice([0.0, 0.0, 0.3, 0.6]),
+        "ephemeral_fns": r.random() < 0.25,
     }
 
 
@@ -921,6 +947,7 @@ class EditsMachine(Machine):
         rng = SimRng(seed)
         cfg = make_config(rng, tier)
         gen = Gen(rng, cfg)
+        EPHEMERAL[0] = bool(cfg.get("ephemeral_fns"))
         ex = Executor(self.prop, known)
         ops: list[dict] = []
         r = rng("plan")
@@ -933,6 +960,8 @@ class EditsMachine(Machine):
                 op = gen.mutator(r.choice(kinds), snap, names)
             elif r.random() < cfg.get("clone_rate", 0.0):
                 op = {"op": "clone", "how": r.choice(["deepcopy", "pickle"])}
+                if cfg.get("ephemeral_fns"):
+                    op["how"] = "deepcopy"  # functions that no module attribute refers to cannot be pickled
             elif r.random() < cfg["query_rate"]:
                 op = gen.query(snap)
             else:
@@ -963,6 +992,7 @@ class EditsMachine(Machine):
         return self._result(case, ex)
 
     def replay(self, case: dict, known: list[list[str]]) -> RunResult:
+        EPHEMERAL[0] = bool((case.get("config") or {}).get("ephemeral_fns"))
         ex = Executor(self.prop, known)
         for i, op in enumerate(case["ops"]):
             ex.step(i, op)
